@@ -19,7 +19,17 @@ opening, under read_points / read / seek / chunk_iterator / read_evlrs / write_p
 close() / __exit__, inside laspy.read and LasData.write - with OSError and ten other classes (one of them not an Exception);
 a fault under a body operation is followed by the rest of the session (caught inside the with block, then normal exit or close())
 and by the exception leaving the with block. The oracle is the same iff at every moment laspy lets go of the stream; the model
-is told which event the fault came out of (outcome fault-<class>, EOpFault, EEndFault, EReadLasFault) and compared as usual."""
+is told which event the fault came out of (outcome fault-<class>, EOpFault, EEndFault, EReadLasFault) and compared as usual.
+LAZ-flagged files (both passes): a valid LAZ header (bit 7 of the point format id, a laszip VLR) with and without points / EVLRs,
+in five environments in which the LAZ point reader cannot be built (laz_backend left out - no backend is installed -, an empty
+tuple, the unavailable backends, a backend double whose create_reader raises a RuntimeError / a LaspyException): the open must
+succeed and leave the stream at the first point record (the point source is lazy), read_points / read / seek / .point_source /
+chunk iteration fail, and every way of ending - with-exit, close(), a user exception, the exception of the failed read leaving the
+with block, IndexError from seek, laspy.read, a refused appender, a second session on the stream that was left open - must honour
+closefd. Position after open (both passes): files whose offset_to_point_data is next to 64 KiB, 1 MiB, 227 + 1 MiB (+-1, +375 ..),
+2-8 MiB and multiples of io.DEFAULT_BUFFER_SIZE - unused bytes before the first point record - or whose VLR block is that big
+(17 x 65535 bytes, 1200 x 900 bytes ..), in every run one beyond 227 + 1 MiB of each sort, on every source kind, content at byte 0
+or 64 of the stream: the stream stands at the first point record and the first read_points returns the file's first records."""
 import gc
 import io
 import os
@@ -33,7 +43,11 @@ from harness import common, lasio
 
 DRIVER = "c18"
 ASSUMPTIONS = [
-    "uncompressed LAS (no LAZ backend is installed); one laspy handle per stream at a time; no double close",
+    "no LAZ backend is installed: LAZ-flagged files are run in the environments in which their point reader cannot be built (the "
+    "model is told the class of the exception building it raises: f_laz); a LAZ point reader that CAN be built - its own reads, "
+    "seeks and close - is outside the model and the generator. An empty LAZ-flagged file with EVLRs is generated on every source "
+    "(read() raises on a source that cannot seek: the open finding of C14/C17; here only the closing is judged). One laspy handle per "
+    "stream at a time; no double close",
     "the stream's close(), closed and seekable() do not fail; its read/readinto/seek/tell/write/flush/truncate may (injected faults: "
     "the k-th such call of the session raises, once or from then on). The non-seekable double refuses seek/tell; the read-only source "
     "has read/close/closed and no other attribute: asking it `x.seekable()` is an AttributeError, which the model predicts from the "
@@ -216,27 +230,76 @@ class KeepOpen(io.BytesIO):
         pass
 
 
+def variant_of(spec):
+    """the optional fifth component of a file spec:
+       "laz"            the points are FLAGGED as compressed (bit 7 of the point format id, a laszip VLR): a valid LAZ header; the
+                        point area is never decoded (no backend can be used: see LAZ_ENVS)
+       "off<T>"         offset_to_point_data is T: unused bytes (extra_vlr_bytes) between the VLRs and the first point record
+       "vlrs<m>x<p>"    m more VLRs of p payload bytes each: the header + VLR block is that much bigger"""
+    spec = tuple(spec)
+    v = spec[4] if len(spec) > 4 else ""
+    out = {"laz": v == "laz", "off": None, "vlrs": None}
+    if v.startswith("off"):
+        out["off"] = int(v[3:])
+    elif v.startswith("vlrs"):
+        m, p_ = v[4:].split("x")
+        out["vlrs"] = (int(m), int(p_))
+    elif v not in ("", "laz"):
+        raise ValueError(spec)
+    return out
+
+
+def is_laz_spec(spec):
+    return len(spec) > 4 and spec[4] == "laz"
+
+
 def base_file(spec):
-    """a well-formed LAS file for spec = (version, fmt, npoints, nevlrs); one VLR so that it can be made undecodable"""
+    """a well-formed LAS file for spec = (version, fmt, npoints, nevlrs[, variant]); one VLR so that it can be made undecodable"""
     spec = tuple(spec)
     if spec in _BASE:
         return _BASE[spec]
     import laspy
-    version, fmt, n, nev = spec
-    rng = random.Random(zlib.crc32(repr(spec).encode()))
-    h = laspy.LasHeader(version=version, point_format=fmt)
-    h.vlrs.append(laspy.VLR(user_id="c18user", record_id=7, description="d", record_data=b"payload"))
-    pts = lasio.rand_points(rng, h, n, pattern="random")
-    ev = laspy.vlrs.vlrlist.VLRList([laspy.VLR(user_id="ev", record_id=i, description="e", record_data=bytes(range(5 + i)))
-                                     for i in range(nev)])
-    bio = KeepOpen()          # the contents must come out even when the writer under test closes what it should not
-    w = laspy.LasWriter(bio, h, closefd=False)
-    if n:
-        w.write_points(pts)
-    if nev:
-        w.write_evlrs(ev)
-    w.close()
-    raw = bio.getvalue()
+    version, fmt, n, nev = spec[:4]
+    var = variant_of(spec)
+    rng = random.Random(zlib.crc32(repr(spec[:4]).encode()))
+    pts0 = ev = None
+
+    def write(pad):
+        nonlocal pts0, ev
+        h = laspy.LasHeader(version=version, point_format=fmt)
+        h.vlrs.append(laspy.VLR(user_id="c18user", record_id=7, description="d", record_data=b"payload"))
+        if var["vlrs"]:
+            m, p_ = var["vlrs"]
+            for i in range(m):
+                h.vlrs.append(laspy.VLR(user_id="c18big", record_id=i % 65536, description="v%d" % i, record_data=bytes([(i * 7 + 1) % 256]) * p_))
+        if var["laz"]:
+            h.vlrs.append(laspy.VLR(user_id="laszip encoded", record_id=22204, description="http://laszip.org", record_data=b"\0" * 52))
+        if pad:
+            unit = bytes((j * 31 + 5) % 256 for j in range(4096))
+            h.extra_vlr_bytes = (unit * (pad // 4096 + 1))[:pad]
+        if pts0 is None:
+            pts0 = lasio.rand_points(rng, h, n, pattern="random")
+            ev = laspy.vlrs.vlrlist.VLRList([laspy.VLR(user_id="ev", record_id=i, description="e", record_data=bytes(range(5 + i)))
+                                             for i in range(nev)])
+        bio = KeepOpen()          # the contents must come out even when the writer under test closes what it should not
+        w = laspy.LasWriter(bio, h, closefd=False)
+        if n:
+            w.write_points(pts0)
+        if nev:
+            w.write_evlrs(ev)
+        w.close()
+        return bio.getvalue()
+    raw = write(0)
+    if var["off"] is not None:
+        off0 = struct.unpack_from("<I", raw, 96)[0]
+        if var["off"] < off0:
+            raise ValueError(f"{spec}: the header and the VLRs alone take {off0} bytes")
+        raw = write(var["off"] - off0)
+        assert struct.unpack_from("<I", raw, 96)[0] == var["off"], spec
+    if var["laz"]:
+        b = bytearray(raw)
+        b[104] |= 0x80
+        raw = bytes(b)
     _BASE[spec] = raw
     return raw
 
@@ -267,15 +330,62 @@ def finfo_of(raw, base=0):
         uid = raw[ev_start + 2:ev_start + 18].split(b"\0")[0]
         bad = int(any(c >= 0x80 for c in uid))
     return {"offset": offset, "count": count, "psize": psize, "minor": minor, "nevlrs": nev, "evlr_start": ev_start,
-            "evlr_bytes": max(0, len(raw) - ev_start) if nev else 0, "size": base + len(raw), "hsize": hsize, "evlr_bad": bad}
+            "evlr_bytes": max(0, len(raw) - ev_start) if nev else 0, "size": base + len(raw), "hsize": hsize, "evlr_bad": bad,
+            "laz": 0, "flagged": bool(raw[104] & 0x80)}
 
 
 def finfo_tok(fi):
-    return ",".join(str(fi[k]) for k in ("offset", "count", "psize", "minor", "nevlrs", "evlr_start", "evlr_bytes", "size", "evlr_bad"))
+    return ",".join(str(fi[k]) for k in ("offset", "count", "psize", "minor", "nevlrs", "evlr_start", "evlr_bytes", "size", "evlr_bad", "laz"))
 
 
 ZERO_FI = {"offset": 0, "count": 0, "psize": 0, "minor": 0, "nevlrs": 0, "evlr_start": 0, "evlr_bytes": 0, "size": 0, "hsize": 0,
-           "evlr_bad": 0}
+           "evlr_bad": 0, "laz": 0, "flagged": False}
+
+
+# ---------------------------------------------------------------------------------
+# LAZ-flagged files: environments in which the LAZ point reader cannot be built
+# ---------------------------------------------------------------------------------
+class FailingBackend:
+    """stands for a LAZ backend that is available but whose reader / appender cannot be built on this file (a damaged chunk
+    table, say): create_reader and create_appender raise"""
+    supports_append = True
+
+    def __init__(self, exc):
+        self._exc = exc
+
+    def is_available(self):
+        return True
+
+    def create_reader(self, source, header, decompression_selection=None):
+        raise self._exc("this backend cannot decode the file")
+
+    def create_appender(self, dest, header):
+        raise self._exc("this backend cannot append to the file")
+
+    def __repr__(self):
+        return f"FailingBackend({self._exc.__name__})"
+
+
+# scenario key "laz": what the caller gives as laz_backend (key absent / None: the argument is left out)
+LAZ_ENVS = [None, "empty", "unavailable", "fail-o", "fail-l"]
+
+
+def laz_kwargs(env):
+    """-> (keyword arguments for laspy.open / laspy.read, model code of the exception building the LAZ point reader raises:
+    1 LaspyException, 2 another Exception); None when the environment cannot be had here (a backend is installed)"""
+    import laspy
+    if env is None:
+        return (None if laspy.LazBackend.detect_available() else ({}, 1))
+    if env == "empty":
+        return {"laz_backend": ()}, 1
+    if env == "unavailable":
+        un = [b for b in laspy.LazBackend if not b.is_available()]
+        return ({"laz_backend": un}, 1) if un else None
+    if env == "fail-o":
+        return {"laz_backend": [FailingBackend(RuntimeError)]}, 2
+    if env == "fail-l":
+        return {"laz_backend": [FailingBackend(laspy.errors.LaspyException)]}, 1
+    raise ValueError(env)
 
 
 def content_for(spec, outcome, variant=0):
@@ -319,7 +429,7 @@ def content_for(spec, outcome, variant=0):
 def writer_header(spec, outcome, variant=0):
     """(header, kwargs) for laspy.open(stream, 'w', header=..., **kwargs) / LasData with the given outcome"""
     import laspy
-    version, fmt, n, nev = spec
+    version, fmt, n, nev = tuple(spec)[:4]
     kw = {}
     if outcome == "incompat":
         h = incompatible_header()
@@ -361,8 +471,7 @@ def incompatible_header():
 def las_data(spec, outcome, variant=0):
     """(LasData, kwargs) for LasData.write(stream, **kwargs)"""
     import laspy
-    version, fmt, n, nev = spec
-    las = laspy.read(io.BytesIO(base_file(spec)))
+    las = laspy.read(io.BytesIO(base_file(tuple(spec)[:4])))
     kw = {}
     if outcome == "incompat":
         kw = {"do_compress": True}
@@ -591,6 +700,14 @@ def run_impl(scen):
     writable = scen.get("writable", True) or first[0] in ("D",) or (first[0] == "O" and first[1] in "wa")
     stream = make_stream_at(kind, PRE[:pre] + init, writable, pre)
     fault = scen.get("fault")
+    lazkw, lazcode = laz_kwargs(scen.get("laz")) or ({}, 1)
+
+    def facts(content_):
+        # the facts of the content, and - the file being LAZ-flagged - what building its point reader raises in this environment
+        f_ = finfo_of(content_, pre)
+        if f_["flagged"]:
+            f_["laz"] = lazcode
+        return f_
     proxy = FaultProxy(stream, int(fault[0]), fault[1], bool(fault[2])) if fault else None
     given = proxy if proxy is not None else stream      # what laspy gets; the harness itself looks at `stream`
     handle = None
@@ -631,9 +748,10 @@ def run_impl(scen):
                 kw["header"] = hdr
             else:
                 if outcome in ["ok"] + LATE and was_open:
-                    fi = finfo_of(content, pre)
+                    fi = facts(content)
                 if mode == "r":
                     kw["read_evlrs"] = re
+                kw.update(lazkw)
             base = pos_of(stream, kind) if (pos_valid and was_open) else None
             last_ex = None
             try:
@@ -732,10 +850,10 @@ def run_impl(scen):
         elif k == "L":
             cf, outcome = ev[1], ev[2]
             if outcome in ["ok"] + LATE and was_open:
-                fi = finfo_of(content, pre)
+                fi = facts(content)
             try:
                 prepared = pos_valid
-                las = laspy.read(given, closefd=cf)
+                las = laspy.read(given, closefd=cf, **lazkw)
                 if prepared and outcome == "ok":
                     info["points_read"] = len(las.points)
                     info["points_expected"] = fi["count"]
@@ -899,6 +1017,96 @@ def matrix(ctx):
     return scen
 
 
+# ---- LAZ-flagged files in an environment where the LAZ point reader cannot be built: the open succeeds (the point source is
+# lazy), whatever needs the points raises, and every way of ending the session must honour closefd
+LAZ_FILES = [("1.2", 3, 5, 0, "laz"), ("1.4", 6, 3, 1, "laz"), ("1.2", 1, 0, 0, "laz"), ("1.4", 7, 0, 1, "laz")]
+LAZ_BODIES = [[], [["P", 2]], [["A"]], [["Q"]], [["S", 1, 0]], [["P", 1], ["A"]], [["P", -1], ["Q"], ["P", 1]], [["I", 2]], [["P", 0]],
+              [["S", 0, 2], ["A"]]]
+LAZ_ENDS = ENDS + [["Bf"], ["Sbad"]]     # Bf: what the last operation raised leaves the with block
+
+
+def laz_matrix(ctx):
+    envs = [e for e in LAZ_ENVS if laz_kwargs(e) is not None]
+    scen = []
+    v = 0
+    for ki, kind in enumerate(KINDS):
+        for fi_, spec in enumerate(LAZ_FILES):
+            for cf in (True, False):
+                for ei_, env in enumerate(envs):
+                    if not ctx.thorough() and ei_ and (ei_ - 1) != (ki + fi_ + cf) % (len(envs) - 1):
+                        continue      # quick tier: the argument left out, and one of the other environments in turn
+                    base = {"src": kind, "file": list(spec), "writable": False}
+                    if env is not None:
+                        base["laz"] = env
+                    for re in ((True, False) if spec[3] else (True,)):
+                        for bi, body in enumerate(LAZ_BODIES):
+                            for ni, end in enumerate(LAZ_ENDS):
+                                v += 1
+                                if not ctx.thorough() and (bi + ni + v // 61) % (2 if kind == "bytesio" else 4):
+                                    continue
+                                if body and body[0][0] == "S" and spec[2] == 0:
+                                    continue
+                                scen.append(dict(base, events=[["O", "r", cf, re, "ok", 0]] + body + [end]))
+                    scen.append(dict(base, events=[["L", cf, "ok", 0]]))
+                    if seekable_kind(kind):
+                        # an appender refuses the file while it is constructed; the same stream is then read (closefd=False left it open)
+                        scen.append(dict(base, writable=True, events=[["O", "a", cf, True, "ok", 0]]))
+                        if not cf:
+                            scen.append(dict(base, writable=True, events=[["O", "a", False, True, "ok", 0], ["N"], ["O", "r", True, True, "ok", 0],
+                                                                          ["P", 1], ["X"]]))
+                        # two sessions on one stream: the first leaves it open
+                        scen.append(dict(base, writable=True, events=[["O", "r", False, True, "ok", 0], ["P", 1], ["X"], ["N"], ["O", "r", cf, False, "ok", 0], ["A"], ["C"]]))
+    return scen
+
+
+# ---- position after open on files whose header + VLR block (what the second read of the header prefetch fetches) crosses the sizes
+# at which buffered readers and read-ahead limits change behaviour: unused bytes before the first point record, many / large VLRs
+MIB = 1 << 20
+# in every run: one byte more than 227 + 1 MiB, one more than 64 KiB, and rests of the header (offset - 227) that are EXACT multiples of 64 KiB
+OFFSETS_ALWAYS = [MIB + 228, (64 << 10) + 1, MIB + 227, (64 << 10) + 227]
+OFFSETS = [(64 << 10) - 1, 64 << 10, (64 << 10) + 228, MIB - 1, MIB, MIB + 1, MIB + 226, MIB + 229, MIB + 375, MIB + 376, 2 * MIB + 227,
+           MIB + 8192, 2 * MIB + 5, 2 * MIB + 228, 4 * MIB + 1, 8 * MIB + 229, io.DEFAULT_BUFFER_SIZE + 1, 16 * io.DEFAULT_BUFFER_SIZE + 227, 3 * MIB - 1]
+VLRS_ALWAYS = ["vlrs17x65535"]                               # 17 x (54 + 65535) bytes: more than 1 MiB of VLRs
+VLRS = ["vlrs1x65535", "vlrs2x65535", "vlrs40x1600", "vlrs300x3500", "vlrs1200x900", "vlrs33x65535", "vlrs16x65481", "vlrs130x8138"]
+BIG_BASES = [("1.2", 1, 3, 0), ("1.4", 7, 3, 2)]
+
+
+def big_specs(ctx):
+    rng = random.Random(ctx.seed * 7907 + 11)
+    offs = OFFSETS_ALWAYS + (OFFSETS if ctx.thorough() else rng.sample(OFFSETS, 4))
+    vl = VLRS_ALWAYS + (VLRS if ctx.thorough() else rng.sample(VLRS, 2))
+    out = []
+    for i, t in enumerate(offs):
+        for b in (BIG_BASES if ctx.thorough() or i < 2 else [BIG_BASES[(i + ctx.seed) % 2]]):
+            out.append(b + (f"off{t}",))
+    for i, t in enumerate(vl):
+        for b in (BIG_BASES if ctx.thorough() or i < 1 else [BIG_BASES[(i + ctx.seed) % 2]]):
+            out.append(b + (t,))
+    return out
+
+
+def big_matrix(ctx):
+    scen = []
+    specs = big_specs(ctx)
+    for si, spec in enumerate(specs):
+        kinds = KINDS if ctx.thorough() else ["bytesio", "double_ns", "double_ro", ["file", "rawfile", "double"][(si + ctx.seed) % 3]]
+        for kind in kinds:
+            for cf in (True, False):
+                for re in ((True, False) if spec[3] else (True,)):
+                    base = {"src": kind, "file": list(spec), "writable": False}
+                    scen.append(dict(base, events=[["O", "r", cf, re, "ok", 0], ["P", 2], ["A"], ["X"]]))
+                    scen.append(dict(base, events=[["O", "r", cf, re, "ok", 0], ["C"]]))
+                    scen.append(dict(base, events=[["O", "r", cf, re, "ok", 0], ["Q"], ["B", "o"]]))
+                    if spec[3] == 0 or not seekable_kind(kind):
+                        scen.append(dict(base, pre=64, events=[["O", "r", cf, re, "ok", 0], ["P", -1], ["X"]]))
+                scen.append({"src": kind, "file": list(spec), "writable": False, "events": [["L", cf, "ok", 0]]})
+                for outcome in ("trunc", "badvlr"):
+                    scen.append({"src": kind, "file": list(spec), "writable": False, "events": [["O", "r", cf, True, outcome, si]]})
+                if seekable_kind(kind):
+                    scen.append({"src": kind, "file": list(spec), "events": [["O", "a", cf, True, "ok", 0], ["W"], ["X"]]})
+    return scen
+
+
 def expect_open_ok(mode, outcome, kind, re=True):
     """whether the harness should append an exit after the open (it only decides the shape of the scenario)"""
     if mode == "r" and outcome == "cutrec":
@@ -915,9 +1123,17 @@ def expect_open_ok(mode, outcome, kind, re=True):
 def random_history(rng):
     kind = rng.choice(["bytesio", "double", "file", "rawfile", "bytesio", "double", "double_ns", "double_ro"])
     spec = rng.choice(FILES)
+    env = None
+    u0 = rng.random()
+    if u0 < 0.12:           # a LAZ-flagged file, in one of the environments in which its point reader cannot be built
+        spec = rng.choice(LAZ_FILES)
+        env = rng.choice([e for e in LAZ_ENVS if laz_kwargs(e) is not None])
+    elif u0 < 0.16:         # the first point record lies beyond 227 + 1 MiB
+        spec = rng.choice(BIG_BASES) + (rng.choice(["off1048804", "off1048805", "vlrs17x65535"]),)
     pre = rng.choice([0, 0, 0, 1, 64, 227, 1000])      # > 0: read sessions and laspy.read only, on a content that starts at `pre`
     if pre and seekable_kind(kind) and spec[3]:
         spec = rng.choice([f for f in FILES if f[3] == 0])
+        env = None
     events = []
     closed = False
     nsess = rng.randrange(1, 5) if seekable_kind(kind) else 1
@@ -955,7 +1171,7 @@ def random_history(rng):
         cf = rng.random() < 0.4
         re = rng.random() < 0.5
         events.append(["O", mode, cf, re, outcome, v])
-        if not expect_open_ok(mode, outcome, kind, re):
+        if not expect_open_ok(mode, outcome, kind, re) or (mode == "a" and is_laz_spec(spec)):      # (an appender refuses a LAZ-flagged file)
             closed = cf and not (mode == "w" and not seekable_kind(kind))
             continue
         n = spec[2]
@@ -989,6 +1205,8 @@ def random_history(rng):
     out = {"src": kind, "file": list(spec), "events": events}
     if pre:
         out["pre"] = pre
+    if env is not None:
+        out["laz"] = env
     return out
 
 
@@ -998,7 +1216,7 @@ _SCEN = None
 def scenarios(ctx):
     global _SCEN
     if _SCEN is None:
-        _SCEN = matrix(ctx) + [random_history(ctx.rng) for _ in range(ctx.n(600, 6000))]
+        _SCEN = matrix(ctx) + [random_history(ctx.rng) for _ in range(ctx.n(600, 6000))] + big_matrix(ctx) + laz_matrix(ctx)
     return _SCEN
 
 
@@ -1047,7 +1265,13 @@ def correspond(ctx):
         "another format}; laspy.read x outcomes; LasData.write x outcomes]; contents that fail after a successful open {point area cut "
         "inside a record, undecodable EVLR user id} x preloading x bodies x ends and through laspy.read; LAS contents that start at byte "
         "1/64/300 of the stream (read sessions, laspy.read x every outcome); plus random histories of up to 4 sessions on one stream "
-        "(the caller refills and rewinds it in between; attempts on a stream laspy already closed). non-trivial = anything but 'open ok; "
+        "(the caller refills and rewinds it in between; attempts on a stream laspy already closed; 12% on a LAZ-flagged file, 4% on a file "
+        "whose first point record lies beyond 227 + 1 MiB); LAZ-flagged files {1.2 / 1.4, points or none, EVLRs or none} x 5 environments "
+        "without a usable backend x source kinds x closefd x EVLR preloading x bodies {none, read_points(2 / 0 / -1), read, .point_source, "
+        "seek (valid / out of range), chunk iterator, combinations} x ends {with-exit, close(), user exceptions, the failed read's exception "
+        "leaving the block, IndexError}, laspy.read, refused appender, two sessions; files with offset_to_point_data at 64 KiB / 1 MiB / 227 + "
+        "1 MiB +- k / 2-8 MiB or with 1-33 x 65535 / 1200 x 900 bytes of VLRs x source kinds x closefd x preloading x {read_points + read + "
+        "exit, close(), .point_source + user exception, content at byte 64, laspy.read, truncated / undecodable VLR opens, append}. non-trivial = anything but 'open ok; "
         "exit'; distinct by (source kind, file, events); plus the stream-fault scenarios of `fault_rule` (every one the model has words "
         "for is compared with it; all are judged by the oracle)")
     scs = scenarios(ctx)
@@ -1118,11 +1342,11 @@ def correspond(ctx):
 # the property on the implementation (no model)
 # ---------------------------------------------------------------------------------
 _RUNS = {}
-SC_KEYS = ("src", "file", "events", "writable", "pre", "fault")
+SC_KEYS = ("src", "file", "events", "writable", "pre", "fault", "laz")
 
 
 def run_key(sc):
-    return repr((sc["src"], sc["file"], sc["events"], sc.get("writable", True), sc.get("pre", 0), sc.get("fault")))
+    return repr((sc["src"], sc["file"], sc["events"], sc.get("writable", True), sc.get("pre", 0), sc.get("fault"), sc.get("laz")))
 
 
 def oracle(sc):
